@@ -3,6 +3,7 @@ import Lemmas.FixedRat
 import Lemmas.FixedFloatConv
 import Lemmas.FixedFloat32From
 import Lemmas.FixedContrast
+import Lemmas.FixedFloatTwin
 /-! # C03 — fixed-point arithmetic equals exact decimal arithmetic truncated toward zero
 
 Property theorems only.  The executable model is `Model/Fixed.lean` (`Fixed.F64.*` = `f64.Int[T]` on wrapping `int64`
@@ -164,6 +165,39 @@ theorem ceil_round_fit_of_margin (m a : Int) (hm : Mult m) :
   constructor <;> intro h1 h2
   · unfold fits64 at *; omega
   · unfold fits128 at *; omega
+
+/-- **no margin anywhere**: for EVERY raw value of the type, `Trunc` returns the exact result (always representable), and
+    `Ceil` / `Round` return the exact result whenever that result is representable — the only hypothesis; in particular
+    for operands within half a unit of `MaxInt64` / `MinInt64` / `±2^127`, where a sum `a ± half` would wrap (the code
+    compares the remainder `a − Trunc(a)` instead, which never leaves the range) -/
+theorem rounding_exact_whenever_representable (m a : Int) (hm : Mult m) :
+    (fits64 a → F64.trunc m a = fxTrunc m a ∧ fits64 (fxTrunc m a)) ∧
+    (fits64 a → fits64 (fxCeil m a) → F64.ceil m a = fxCeil m a) ∧
+    (fits64 a → fits64 (fxRound m a) → F64.round m a = fxRound m a) ∧
+    (fits128 a → F128.trunc m a = fxTrunc m a ∧ fits128 (fxTrunc m a)) ∧
+    (fits128 a → fits128 (fxCeil m a) → F128.ceil m a = fxCeil m a) ∧
+    (fits128 a → fits128 (fxRound m a) → F128.round m a = fxRound m a) :=
+  ⟨fun ha => ⟨F64.trunc_eq hm ha, fits64_tdiv_mul ha⟩, fun ha hr => F64.ceil_eq hm ha hr,
+   fun ha hr => F64.round_eq hm ha hr,
+   fun ha => ⟨F128.trunc_eq hm ha, fits128_tdiv_mul ha⟩, fun ha hr => F128.ceil_eq hm ha hr,
+   fun ha hr => F128.round_eq hm ha hr⟩
+
+/-- when the value is less than half a unit from its truncation, `Round` is that truncation with NO representability
+    hypothesis at all — e.g. `Round(Max)` at D2 (`…807 → …800`), one step from the limit -/
+theorem round_toward_zero_needs_no_margin (m a : Int) (hm : Mult m) (hlt : 2 * |a - fxTrunc m a| < m) :
+    fxRound m a = fxTrunc m a ∧ (fits64 a → F64.round m a = fxTrunc m a) ∧ (fits128 a → F128.round m a = fxTrunc m a) := by
+  have hev := hm.even
+  have hr : fxRound m a = fxTrunc m a := by
+    obtain ⟨h1, h2⟩ := abs_lt.mp (show |a - fxTrunc m a| < m.tdiv 2 by omega)
+    unfold fxRound
+    rw [if_neg (by omega), if_neg (by omega)]
+  refine ⟨hr, fun ha => ?_, fun ha => ?_⟩
+  · rw [← hr]; exact F64.round_eq hm ha (by rw [hr]; exact fits64_tdiv_mul ha)
+  · rw [← hr]; exact F128.round_eq hm ha (by rw [hr]; exact fits128_tdiv_mul ha)
+
+/-- at and next to the limits (D2): `Max` and `Min` round toward zero, `Max − 0.57` rounds up to `…800` -/
+example : F64.round 100 F64.maxRaw = 9223372036854775800 ∧ F64.round 100 F64.minRaw = -9223372036854775800 ∧
+    F128.round 100 F128.maxRaw = F128.maxRaw - 27 ∧ F64.round 100 (F64.maxRaw - 57) = 9223372036854775800 := by decide
 
 /-! ## Abs, Neg, Min, Max, Inc, Dec, comparisons -/
 
@@ -585,6 +619,48 @@ theorem float32_conversions_within_property_bound (m : Int) (hm : Mult m) :
   · exact le_trans (f64_as_float32_bound m a hm ha).2.2 (le_trans (mono _) (le_max_right _ _))
   · exact le_trans (f128_as_float32_bound m a hm ha).2.2.2 (le_max_right _ _)
 
+/-! ## f64 and f128 agree on `As[float64]` (partial)
+
+f64 rounds `raw/mult` once to 53 bits; f128 rounds it to 128 bits and then to 53.  The full statement is
+`f64_f128_as_float_agree_Statement`; the check compares the two implementations bit for bit on common raw values on
+every run (twin agreement, model-free).  Proved: the results are the same float or neighbours, and the cause a second
+rounding could change the result is excluded — the 128-bit quotient is strictly on the same side as `raw/mult` of every
+rounding boundary.  Not proved: the step from there to equal bits inside `GoSem.F64.roundRatN` (that its exponent search
+and its half-way test only depend on the side of the boundaries, i.e. monotonicity of the rounding function). -/
+
+/-- the full clause for `As[float64]`: the same float from both types on every common raw value (NOT proved; see above) -/
+def f64_f128_as_float_agree_Statement : Prop :=
+  ∀ m a : Int, Mult m → fits64 a → F64.asFloat m a = F128.asFloat m a
+
+/-- partial, quantitative: the two results differ by at most `2^-52 + 2^-127` of the value — the same float or two
+    neighbouring ones -/
+theorem f64_f128_as_float_close (m a : Int) (hm : Mult m) (ha : fits64 a) :
+    |fval (F64.asFloat m a) - fval (F128.asFloat m a)| ≤ |value m a| * (1 / 2 ^ 52 + 1 / 2 ^ 127) :=
+  as_float_twin_close m a hm ha
+
+/-- partial, the arithmetic core: a non-zero distance of `A/mult` from a point `M·2^t` of a binary grid is at least
+    `min(1, 2^t)/mult` — decimal fractions with at most 16 places cannot come closer than that to a binary rounding
+    boundary without being on it -/
+theorem as_float_grid_gap (A M : Nat) (m : Int) (hm : Mult m) (t : Int)
+    (hne : (A : ℚ) / m ≠ (M : ℚ) * (2 : ℚ) ^ t) :
+    min 1 ((2 : ℚ) ^ t) / m ≤ |(A : ℚ) / m - (M : ℚ) * (2 : ℚ) ^ t| := grid_gap A M m hm.pos t hne
+
+/-- partial, no double rounding: the 128-bit quotient that the model of `f128.As` forms (`F128.quo128`) lies strictly on
+    the same side as `|raw|/mult` of every grid point `M·2^t` with `|raw|/mult < 2^(t+54)` (the 53-bit rounding
+    boundaries of the binade of the value are such points) unless `|raw|/mult` IS that point — in which case the
+    quotient is exact.  Hypothesis named: `fits64 a` (both types represent the raw value); the gap `2^t/10^16` exceeds the
+    error `2^(t+54)/2^128` of the 128-bit rounding -/
+theorem f128_as_quotient_keeps_side (m a : Int) (hm : Mult m) (ha : fits64 a) (h0 : a ≠ 0) (M : Nat) (t : Int)
+    (hr : |value m a| < (2 : ℚ) ^ (t + 54)) (hne : |value m a| ≠ (M : ℚ) * (2 : ℚ) ^ t) :
+    (((F128.quo128 a.natAbs m.toNat).1 : ℚ) / ((F128.quo128 a.natAbs m.toNat).2 : ℚ) < (M : ℚ) * (2 : ℚ) ^ t
+      ↔ |value m a| < (M : ℚ) * (2 : ℚ) ^ t) ∧
+    ((F128.quo128 a.natAbs m.toNat).1 : ℚ) / ((F128.quo128 a.natAbs m.toNat).2 : ℚ) ≠ (M : ℚ) * (2 : ℚ) ^ t :=
+  quo128_same_side m a hm ha h0 M t hr hne
+
+/-- instances of the unproved statement, decided: small, beyond 2^53, at the limits, next to a rounding midpoint -/
+example : ∀ a ∈ [29, -29, 9007199254740993, 9223372036854775807, -9223372036854775808, 4503599627370497],
+    ∀ m ∈ [10, 100, 10 ^ 16], (F64.asFloat m a).toBits = (F128.asFloat m a).toBits := by decide
+
 /-! ## MaxSafeMultiply -/
 
 /-- f64 `MaxSafeMultiply` is `Max / mult`, and every value up to it (in magnitude) can be scaled by the multiplier
@@ -738,6 +814,15 @@ theorem contrast_mul_scale_first :
     ∃ m a b, Mult m ∧ fits64 (a * b) ∧ mulScaleFirst64 m a b ≠ (a * b).tdiv m ∧ F64.mul m a b = (a * b).tdiv m :=
   ⟨100, 150, 200, ⟨(2, 100), by decide, rfl⟩, by decide, by decide, by decide⟩
 
+/-- `Round` written as "add half a unit away from zero, then `Trunc`" (seeded change `ind7-c03-b`) wraps for operands
+    within half a unit of the limits although the exact result is representable: `Round(Max)` at D2 in f64 and
+    `Round(Min)` in f128 — against `rounding_exact_whenever_representable`, which the running code meets there -/
+theorem contrast_round_add_half_then_trunc :
+    (∃ m a, Mult m ∧ fits64 a ∧ fits64 (fxRound m a) ∧ roundAddHalf64 m a ≠ fxRound m a ∧ F64.round m a = fxRound m a) ∧
+    (∃ m a, Mult m ∧ fits128 a ∧ fits128 (fxRound m a) ∧ roundAddHalf128 m a ≠ fxRound m a ∧
+      F128.round m a = fxRound m a) :=
+  ⟨⟨100, F64.maxRaw, ⟨(2, 100), by decide, rfl⟩, by decide, by decide, by decide, by decide⟩,
+   ⟨100, F128.minRaw, ⟨(2, 100), by decide, rfl⟩, by decide, by decide, by decide, by decide⟩⟩
 /-! ## the hypotheses are satisfiable (non-vacuity) -/
 
 example : Mult 100 := ⟨(2, 100), by decide, rfl⟩
